@@ -187,10 +187,16 @@ def run_project(files):
         finally:
             m.FortranCodeUnit._find_chain_item = orig
 
+        # the project's own top-level procedures (what an otherwise unresolved plain name falls back to)
+        ext = [(proc.name.lower(), obj_path(proc)) for proc in p.procedures if getattr(proc, "parobj", "") == "sourcefile"]
+
         def visit(u, path):
-            if hasattr(u, "calls") and getattr(u, "obj", "") in ("proc", "program"):
-                res[path] = {"calls": [call_name(c) for c in u.calls], "tab": snaps.get(id(u))}
-            for attr in ("modules", "programs", "functions", "subroutines"):
+            if hasattr(u, "calls") and isinstance(u, (m.FortranProcedure, m.FortranProgram,
+                                                       m.FortranModuleProcedureImplementation)):
+                tab = snaps.get(id(u))
+                res[path] = {"calls": [call_name(c) for c in u.calls],
+                             "tab": (tab[0], tab[1], ext) if tab else None}
+            for attr in ("modules", "submodules", "programs", "functions", "subroutines", "modprocedures"):
                 for c in getattr(u, attr, None) or []:
                     visit(c, path + (c.name.lower(),))
         for f in p.files:
